@@ -1,4 +1,38 @@
-"""C14 - A parsed beacon configuration is an immutable value (alias / who-may-write analysis)."""
+"""C14 - A parsed beacon configuration is an immutable value (alias / who-may-write analysis).
+
+Technique
+---------
+Numbers refer to the ALLOWED list of RULES_GUIDE.md ("What counts as *static* here").  No rule of this module evaluates
+/repo code on data: there are no sample inputs, no numeric enumeration, no loop unrolling, no regex/grammar subjects, and
+no arithmetic or bit-level fact is needed, so no algebraic lemma is relied on.  The `depth` / iteration bounds in the code
+limit the *analysis* recursion (term substitution, fixpoint rounds), never a run of the analysed code; exceeding one yields
+"unknown" (-> undecided), not a verdict.
+
+* R1  (no mutation reaches a value of the cached views): 1 (syntax-tree queries, resolved callees / call sites, receiver
+      types) + 3 (def-use: taint through assignments, tuple targets, argument binding, fields, returns; re-bound locals
+      through reaching definitions on the CFG; a loop header is looked at once, its target is "an element of the iterable")
+      + 4 (a may-alias abstract domain {may be a store value / not} per local, parameter, field, return, iterated to a
+      fixpoint; mutator and fresh-copy tables of csverif/alias.py as transfer rules).
+* R2  (every value a view can hand out is a MappingProxyType): 1 + 3 (value provenance terms: returns of package callees
+      with arguments bound to parameters, reaching definitions of locals, attribute reads resolved through *all* writes of
+      that attribute in the package, all call sites of a parameter) + 4 (abstract domain of value kinds
+      {proxy, None, not-a-proxy, unknown}, joined over paths/writes) + 5 (`getattr`/`setattr` names: case analysis over the
+      string literals, keyword names and constant tuples the analysed code itself passes) + 2 (`falls_off_end` on the CFG)
+      + 6 (constant folding of a literal tuple a `for` iterates over).
+* R3  (who may bind BeaconConfig attributes): 1 (who-may-write over every store/delete/setattr/`__dict__` form in the
+      package, receiver typing) + 3 (freshness of the receiver through reaching definitions, returns of package callees and
+      the bindings at every call site) + the value-kind domain of R2 (4) for cache fills.
+* R4  (transform()/recover() leave their HttpDataTransform's state alone): 1 (mutator calls, attribute/item stores) + 3
+      (reaching definitions to see through local aliases of `self.x` and of its elements; the step lists are located by
+      role as the instance attributes that drive a loop, the loop is not unrolled).
+* R5  (imported C02.R3, cache slots of the views): see rules/c02.py - path-wise symbolic terms and branch facts over the
+      bodies of the four properties (2, 3) and constant folding of the settings_map arguments (6); the properties take no
+      input besides `self`, nothing concrete is fed to them.
+* R6  (no writer of module/class-level objects; memoised results immutable): 1 (shared objects found from the syntax of
+      module/class-level initialisers, decorators) + 3/4 (the same may-alias fixpoint as R1 with those objects as sources,
+      `deep_attrs` field sensitivity) + structural classification of the inlined (3) return expression of a memoised
+      function.
+"""
 
 from __future__ import annotations
 
